@@ -158,7 +158,12 @@ def generate(rng, idx, tier):
         ol.append(ops.gen_drop(rng))         # leaves non-contiguous indices behind
     for _ in range(cfg["n_calc"]):
         for _ in range(rng.randint(0, 3)):
-            ol.append(ops.gen_set(rng) if rng.random() < 0.6 else ops.gen_toggle(rng))
+            r = rng.random()
+            # between calculations the user edits values, switches, and also adds / drops elements (whatever an
+            # earlier - possibly failed - calculation left behind must not make the next one touch these rows)
+            ol.append(ops.gen_set(rng) if r < 0.5 else ops.gen_toggle(rng) if r < 0.75 else
+                      ops.gen_create(rng, ["gen", "gen", "gen", "load", "sgen", "dcline", "line", "bus"]) if r < 0.95
+                      else ops.gen_drop(rng))
         kind = _wchoice(rng, CALC_W)
         r = rng.random()
         stratum = "inject" if r < cfg["fault_rate"] else \
